@@ -146,7 +146,11 @@ func (c *Check) reconstruction(rule string) {
 	}
 	n := 0
 	for _, pa := range c.P.PathsOf(g) {
-		if len(pa.Ret) != 2 || pa.Ret[0].Op != "lit" || !pa.Ret[1].IsAt("#true") {
+		// a path that reports "found": the flag is the constant true or a value the path has established to be true
+		if len(pa.Ret) != 2 || pa.Ret[0].Op != "lit" {
+			continue
+		}
+		if !pa.Ret[1].IsAt("#true") && !pa.AllFacts().Holds(pa.Ret[1], true) {
 			continue
 		}
 		n++
